@@ -26,11 +26,15 @@ Proof. destruct c; reflexivity. Qed.
 Lemma gt_not_le a b : negb (b <? a) = (a <=? b).
 Proof. destruct (b <? a) eqn:E, (a <=? b) eqn:F; cbn; auto; lia. Qed.
 
-Lemma is_ok_vsl s : is_ok (validate_string_length s) = str_ok s.
-Proof. unfold validate_string_length, str_ok, MAXIMUM_STRING_PROPERTY_LENGTH. rewrite is_ok_if_tt. apply gt_not_le. Qed.
+(* after the repair of D28 (/repo cbc2d52) the string helpers also reject U+0000 *)
+Lemma is_ok_vsl s : is_ok (validate_string_length s) = str_ok s && no_nul s.
+Proof.
+  unfold validate_string_length, str_ok, MAXIMUM_STRING_PROPERTY_LENGTH.
+  rewrite is_ok_if, is_ok_if_tt, contains_nul_no_nul, negb_involutive. f_equal. apply gt_not_le.
+Qed.
 
-Lemma is_ok_vosl o : is_ok (validate_optional_string_length o) = ostr_ok o.
-Proof. destruct o; cbn; [|reflexivity]. unfold str_ok, MAXIMUM_STRING_PROPERTY_LENGTH. rewrite is_ok_if_tt. apply gt_not_le. Qed.
+Lemma is_ok_vosl o : is_ok (validate_optional_string_length o) = ostr_ok o && onul_ok o.
+Proof. destruct o as [s|]; [|reflexivity]. exact (is_ok_vsl s). Qed.
 
 Lemma is_ok_vobl o : is_ok (validate_optional_binary_length o) = ostr_ok o.
 Proof. destruct o; cbn; [|reflexivity]. unfold str_ok, MAXIMUM_BINARY_PROPERTY_LENGTH. rewrite is_ok_if_tt. apply gt_not_le. Qed.
@@ -41,7 +45,8 @@ Proof. destruct o; cbn; [|reflexivity]. apply is_ok_if_tt. Qed.
 
 Definition ups_ok (o : option (list user_property)) : bool :=
   match o with
-  | Some l => forallb (fun p => str_ok (up_name p)) l && forallb (fun p => str_ok (up_value p)) l
+  | Some l => forallb (fun p => str_ok (up_name p)) l && forallb (fun p => str_ok (up_value p)) l &&
+              forallb (fun p => no_nul (up_name p) && no_nul (up_value p)) l
   | None => true
   end.
 
@@ -54,7 +59,8 @@ Qed.
 Lemma ups_rules_ok o : ups_ok o = true <-> ups_rules o = [].
 Proof.
   destruct o as [l|]; cbn; [|tauto]. unfold req.
-  destruct (forallb (fun p => str_ok (up_name p)) l), (forallb (fun p => str_ok (up_value p)) l); cbn; split; intros; try discriminate; auto.
+  destruct (forallb (fun p => str_ok (up_name p)) l), (forallb (fun p => str_ok (up_value p)) l),
+           (forallb (fun p => no_nul (up_name p) && no_nul (up_value p)) l); cbn; split; intros; try discriminate; auto.
 Qed.
 
 (* ---- static validation ---- *)
@@ -66,7 +72,7 @@ Definition otopic_ok (o : option bytes) : bool :=
 Definition publish_static (p : publish) : bool :=
   (pub_pid p =? 0) && negb (pub_dup p) && spec_topic (pub_topic p) && no_nul (pub_topic p) && alias_nz (pub_alias p) &&
   is_none (pub_subids p) && otopic_ok (pub_response_topic p) && ups_ok (pub_up p) &&
-  ostr_ok (pub_correlation p) && ostr_ok (pub_content_type p).
+  ostr_ok (pub_correlation p) && ostr_ok (pub_content_type p) && onul_ok (pub_content_type p).
 
 Lemma spec_topic_str_ok t : spec_topic t = true -> str_ok t = true.
 Proof. unfold spec_topic, length_ok, str_ok. intros H. repeat (apply andb_true_iff in H as [H ?]). assumption. Qed.
@@ -78,7 +84,7 @@ Proof.
   destruct (pub_dup p); cbn [negb andb]; [reflexivity|].
   rewrite is_ok_bind, is_ok_vsl, topic_grammar.
   destruct (spec_topic (pub_topic p)) eqn:Et; cbn [negb andb]; [|now rewrite andb_false_r].
-  destruct (no_nul (pub_topic p)); cbn [negb andb]; [|now rewrite andb_false_r].
+  destruct (no_nul (pub_topic p)); cbn [negb andb]; [|now rewrite !andb_false_r].
   rewrite (spec_topic_str_ok _ Et). cbn [andb].
   rewrite is_ok_bind.
   assert (Ha : is_ok (match pub_alias p with Some a => if a =? 0 then vfail else Ok tt | None => Ok tt end) = alias_nz (pub_alias p))
@@ -91,7 +97,7 @@ Proof.
                       | None => Ok tt end) = otopic_ok (pub_response_topic p)).
   { destruct (pub_response_topic p) as [rt|]; [|reflexivity]. unfold otopic_ok. rewrite topic_grammar.
     destruct (spec_topic rt) eqn:E; cbn [andb negb]; [|reflexivity].
-    destruct (no_nul rt); cbn [andb negb]; [|reflexivity]. rewrite is_ok_vsl. now apply spec_topic_str_ok. }
+    destruct (no_nul rt) eqn:En; cbn [andb negb]; [|reflexivity]. rewrite is_ok_vsl, En, andb_true_r. now apply spec_topic_str_ok. }
   rewrite Hr. btauto.
 Qed.
 
@@ -124,16 +130,17 @@ Proof.
 Qed.
 
 Definition disconnect_static (d : disconnect) : bool :=
-  ostr_ok (d_reason d) && ups_ok (d_up d) && ostr_ok (d_server_ref d).
+  ostr_ok (d_reason d) && onul_ok (d_reason d) && ups_ok (d_up d) && ostr_ok (d_server_ref d) && onul_ok (d_server_ref d).
 Lemma is_ok_disconnect_static d : is_ok (validate_disconnect_packet_outbound d) = disconnect_static d.
 Proof. unfold validate_disconnect_packet_outbound, disconnect_static. rewrite !is_ok_bind, !is_ok_vosl, is_ok_vup. btauto. Qed.
 
-Definition ack_static (a : ack) : bool := ostr_ok (ack_reason a) && ups_ok (ack_up a).
+Definition ack_static (a : ack) : bool := ostr_ok (ack_reason a) && onul_ok (ack_reason a) && ups_ok (ack_up a).
 Lemma is_ok_ack_static a : is_ok (validate_ack_outbound a) = ack_static a.
 Proof. unfold validate_ack_outbound, ack_static. now rewrite is_ok_bind, is_ok_vosl, is_ok_vup. Qed.
 
 Definition auth_static (a : auth) : bool :=
-  negb (is_none (au_method a)) && ostr_ok (au_method a) && ostr_ok (au_data a) && ostr_ok (au_reason a) && ups_ok (au_up a).
+  negb (is_none (au_method a)) && ostr_ok (au_method a) && onul_ok (au_method a) && ostr_ok (au_data a) &&
+  ostr_ok (au_reason a) && onul_ok (au_reason a) && ups_ok (au_up a).
 Lemma is_ok_auth_static a : is_ok (validate_auth_packet_outbound a) = auth_static a.
 Proof.
   unfold validate_auth_packet_outbound, auth_static. destruct (au_method a) eqn:E; [|reflexivity].
@@ -144,12 +151,14 @@ Definition auth_data_ok (c : connect) : bool :=
   match con_auth_data c, con_auth_method c with Some _, None => false | _, _ => true end.
 
 Definition will_static (w : publish) : bool :=
-  ostr_ok (pub_content_type w) && ostr_ok (pub_response_topic w) && ostr_ok (pub_correlation w) &&
-  ups_ok (pub_up w) && str_ok (pub_topic w) && ostr_ok (pub_payload w).
+  ostr_ok (pub_content_type w) && onul_ok (pub_content_type w) &&
+  ostr_ok (pub_response_topic w) && onul_ok (pub_response_topic w) && ostr_ok (pub_correlation w) &&
+  ups_ok (pub_up w) && str_ok (pub_topic w) && no_nul (pub_topic w) && ostr_ok (pub_payload w).
 
 Definition connect_static (c : connect) : bool :=
-  ostr_ok (con_client_id c) && nz_ok (con_receive_max c) && nz_ok (con_max_packet c) && auth_data_ok c &&
-  ostr_ok (con_auth_method c) && ostr_ok (con_auth_data c) && ostr_ok (con_username c) && ostr_ok (con_password c) &&
+  ostr_ok (con_client_id c) && onul_ok (con_client_id c) && nz_ok (con_receive_max c) && nz_ok (con_max_packet c) && auth_data_ok c &&
+  ostr_ok (con_auth_method c) && onul_ok (con_auth_method c) && ostr_ok (con_auth_data c) &&
+  ostr_ok (con_username c) && onul_ok (con_username c) && ostr_ok (con_password c) &&
   ups_ok (con_up c) && match con_will c with Some w => will_static w | None => true end.
 
 Lemma is_ok_connect_static c : is_ok (validate_connect_packet_outbound c) = connect_static c.
@@ -439,10 +448,11 @@ Lemma publish_sound_core st co r q :
   negb (pub_dup q) = true -> spec_topic (pub_topic q) = true -> no_nul (pub_topic q) = true ->
   alias_nz (pub_alias q) = true -> is_none (pub_subids q) = true -> otopic_ok (pub_response_topic q) = true ->
   ups_ok (pub_up q) = true -> ostr_ok (pub_correlation q) = true -> ostr_ok (pub_content_type q) = true ->
+  onul_ok (pub_content_type q) = true ->
   is_ok (validate_outbound_internal (Some st) co r (Publish q)) = true ->
   violations st co r (Publish q) = [].
 Proof.
-  intros Hq Hsm Hdup Ht Hn Ha Hsi Hrt Hup Hco Hct Hd.
+  intros Hq Hsm Hdup Ht Hn Ha Hsi Hrt Hup Hco Hct Hcn Hd.
   assert (Hsub : pub_subids q = None) by (destruct (pub_subids q); [discriminate|reflexivity]).
   rewrite (is_ok_dynamic st co r (Publish q)) in Hd.
   2:{ intros _. split; [|split]; [cbn; now rewrite Hsub | exact Hsm | exact I]. }
@@ -452,7 +462,7 @@ Proof.
   match goal with H : qos_dyn _ _ = true |- _ => apply (qos_rule _ _ Hq) in H; rename H into Hqos end.
   apply ups_rules_ok in Hup.
   cbn [violations]. unfold publish_rules, size_rules.
-  rewrite Ht, Hn, Ha, Hdup, Hsub, Hco, Hct, Hup, Hpid, Hqos.
+  rewrite Ht, Hn, Ha, Hdup, Hsub, Hco, Hct, Hcn, Hup, Hpid, Hqos.
   repeat match goal with H : ?c = true |- _ => rewrite H; clear H end.
   reflexivity.
 Qed.
